@@ -85,6 +85,10 @@ class Repo:
                     self.classes.setdefault(n.name, ClassInfo(n.name, n, rel))
                 elif isinstance(n, ast.FunctionDef):
                     self.functions[(rel, n.name)] = n
+        # normalisation: private helpers unknown to the rule tables are
+        # inlined into their callers (chk/inline.py)
+        from . import inline
+        self.inlined = inline.normalise(self)
         for tree in self.trees.values():
             for parent in ast.walk(tree):
                 for child in ast.iter_child_nodes(parent):
@@ -213,6 +217,58 @@ class Repo:
                     for m in n.body:
                         if isinstance(m, ast.FunctionDef):
                             yield rel, n.name, m
+
+
+def expand_pred(repo, cls, test, _depth=0):
+    """Expand calls to single-expression helper predicates in a test.
+
+    `if Cls._outside(sigma, y):` / `if self._outside(sigma, y):` where the
+    helper's body is one `return <expr>` becomes `<expr>` with the parameters
+    replaced by the argument expressions (a refactoring that extracts a
+    repeated guard must not blind the guard rules)."""
+    import copy as _copy
+    if _depth > 3 or cls is None:
+        return test
+
+    def sub(n):
+        if isinstance(n, ast.BoolOp):
+            return ast.BoolOp(op=n.op, values=[sub(v) for v in n.values])
+        if isinstance(n, ast.UnaryOp) and isinstance(n.op, ast.Not):
+            return ast.UnaryOp(op=n.op, operand=sub(n.operand))
+        if isinstance(n, ast.Call) and isinstance(n.func, ast.Attribute) \
+                and isinstance(n.func.value, ast.Name) and not n.keywords:
+            recv = n.func.value.id
+            k = cls if recv in ('self', 'cls') else recv
+            if not repo.has_cls(k):
+                return n
+            owner, fn = repo.resolve(k, n.func.attr)
+            if fn is None:
+                return n
+            body = repo.body_wo_doc(fn)
+            if len(body) != 1 or not isinstance(body[0], ast.Return) \
+                    or body[0].value is None:
+                return n
+            params = [a.arg for a in fn.args.args]
+            if params and params[0] in ('self', 'cls'):
+                params = params[1:]
+            if len(params) != len(n.args):
+                return n
+            m = dict(zip(params, n.args))
+
+            class R(ast.NodeTransformer):
+                def visit_Name(self, x):
+                    if x.id in m and isinstance(x.ctx, ast.Load):
+                        return _copy.deepcopy(m[x.id])
+                    return x
+            e = R().visit(_copy.deepcopy(body[0].value))
+            ast.fix_missing_locations(e)
+            return expand_pred(repo, owner, e, _depth + 1)
+        return n
+    out = sub(test)
+    if out is not test:
+        ast.copy_location(out, test)
+        ast.fix_missing_locations(out)
+    return out
 
 
 def norm_stmt(node):
